@@ -35,6 +35,130 @@ for src, kw in srcs:
 print(json.dumps(out))
 '''
 
+FORK_WORKER = r'''
+import sys, os, pickle, base64
+sys.path.insert(0, %r)
+import python_minifier
+from python_minifier import RemoveAnnotationsOptions
+for line in sys.stdin:
+    src, kw = pickle.loads(base64.b64decode(line))
+    r, w = os.pipe()
+    pid = os.fork()
+    if pid == 0:
+        os.close(r)
+        try:
+            out = python_minifier.minify(src, **kw)
+        except Exception as e:
+            out = 'EXC:' + e.__class__.__name__
+        with os.fdopen(w, 'wb') as f:
+            f.write(pickle.dumps(out))
+        os._exit(0)
+    os.close(w)
+    with os.fdopen(r, 'rb') as f:
+        data = f.read()
+    os.waitpid(pid, 0)
+    sys.stdout.write(base64.b64encode(data).decode() + '\n')
+    sys.stdout.flush()
+'''
+
+
+class FreshPool(object):
+    """minify in a process that has imported the package but never minified anything: every request runs in a fork of it"""
+
+    def __init__(self):
+        import base64
+        import pickle
+        self._b64, self._pickle = base64, pickle
+        self.proc = subprocess.Popen([common.PY, '-c', FORK_WORKER % common.REPO_SRC], stdin=subprocess.PIPE, stdout=subprocess.PIPE,
+                                     stderr=subprocess.DEVNULL, env=dict(os.environ, PYTHONHASHSEED='0'))
+
+    def minify(self, src, kw):
+        self.proc.stdin.write(self._b64.b64encode(self._pickle.dumps((src, kw))) + b'\n')
+        self.proc.stdin.flush()
+        line = self.proc.stdout.readline()
+        if not line:
+            raise RuntimeError('fresh-process worker died')
+        return self._pickle.loads(self._b64.b64decode(line))
+
+    def close(self):
+        try:
+            self.proc.stdin.close()
+            self.proc.wait(timeout=10)
+        except Exception:
+            self.proc.kill()
+
+
+RESIDUE_NAMES = ['local_value', 'argument_value', 'value_item', 'hidden_value', 'other_name', 'item', 'total', 'A', 'B']
+
+
+def residue_programs():
+    """pairs (first, second): `first` mentions a name in a way that makes the minifier remember something about it (a type parameter,
+    an exported / preserved / imported / global / class-level / unbound name, a tainting builtin); `second` has a renamable local and a
+    renamable global with that spelling.  Whatever `first` leaves behind must not reach `second`."""
+    firsts = [
+        'def generic_function[%(n)s](parameter_value: %(n)s) -> %(n)s:\n    return parameter_value\n',
+        'class GenericClass[%(n)s]:\n    attribute_value: %(n)s\n',
+        'type AliasName[%(n)s] = list[%(n)s]\n',
+        'def variadic_function[*%(n)s](*parameter_values):\n    return parameter_values\n',
+        'def spec_function[**%(n)s](parameter_value):\n    return parameter_value\n',
+        '__all__ = ["%(n)s"]\n%(n)s = 1\nprint(%(n)s, %(n)s)\n',
+        'import %(n)s\nprint(%(n)s, %(n)s)\n',
+        'from some_module import %(n)s\nprint(%(n)s, %(n)s)\n',
+        'from some_module import *\nprint(%(n)s, %(n)s)\n',
+        'def declaring_function():\n    global %(n)s\n    %(n)s = 1\n    return %(n)s\n',
+        'class HoldingClass:\n    %(n)s = 1\n    def method(self):\n        return self.%(n)s\n',
+        'def keyword_function(*, %(n)s=1):\n    return %(n)s, %(n)s\nkeyword_function(%(n)s=2)\n',
+        'function_value = lambda %(n)s: (%(n)s, %(n)s)\n',
+        'print(%(n)s, %(n)s, %(n)s)\n',
+        'def tainted_function(%(n)s):\n    return eval("%(n)s")\n',
+        'def tainted_function():\n    %(n)s = 1\n    return locals()\n',
+        '%(n)s: int\ndef annotated_function(parameter_value: "%(n)s"):\n    return parameter_value\n',
+        'def outer_function():\n    %(n)s = 0\n    def inner_function():\n        nonlocal %(n)s\n        %(n)s = 1\n    return inner_function\n',
+        'def matcher(subject_value):\n    match subject_value:\n        case {"key": %(n)s, **rest_value}:\n            return %(n)s, rest_value\n',
+        'try:\n    pass\nexcept ValueError as %(n)s:\n    print(%(n)s, %(n)s)\n',
+        'def text_function():\n    return ["%(n)s", "%(n)s", "%(n)s", "%(n)s", "%(n)s"]\n',
+    ]
+    second = ('def consumer_function(values):\n    %(n)s = 0\n    for loop_value in values:\n        %(n)s = %(n)s + loop_value\n    return %(n)s + %(n)s\n'
+              '%(n)s = consumer_function([1])\nprint(%(n)s, %(n)s, %(n)s)\n')
+    out = []
+    for n in RESIDUE_NAMES:
+        for f in firsts:
+            out.append((f % {'n': n}, second % {'n': n}))
+    return out
+
+
+def residue(ctx, pool, limit):
+    import python_minifier
+    pairs = residue_programs()
+    ctx.exhaustive['residue_first_forms_x_names'] = len(pairs)
+    if limit < len(pairs):
+        ctx.rng.shuffle(pairs)
+        pairs = pairs[:limit]
+    n = 0
+    for first, second in pairs:
+        for kw in (dict(), dict(rename_globals=True), dict(rename_globals=True, hoist_literals=False)):
+            if ctx.time_left() < 10:
+                break
+            expected = pool.minify(second, kw)
+            try:
+                python_minifier.minify(first, **dict(kw))
+            except Exception:
+                pass
+            try:
+                got = python_minifier.minify(second, **dict(kw))
+            except Exception as e:
+                got = 'EXC:' + e.__class__.__name__
+            ctx.count()
+            n += 1
+            if expected != second:
+                ctx.mark_nontrivial('residue:' + first + repr(kw))
+            if got != expected:
+                ctx.add_violation({'input': {'sources': [first, second], 'call': 1, 'options': kw, 'preserve_locals': [], 'preserve_globals': []},
+                                   'what': 'the second module is minified differently after the first one than in a fresh process', 'found_by': 'residue',
+                                   'oracle': 'history', 'shapes': []})
+    ctx.stage('residue', pairs=len(pairs), calls=n)
+
+
 OPTSETS = [dict(), dict(rename_globals=True), dict(rename_globals=True, remove_literal_statements=True, hoist_literals=True),
            dict(hoist_literals=False, rename_locals=True)]
 
@@ -123,7 +247,7 @@ def fresh(src, kw):
         return 'EXC:' + e.__class__.__name__
 
 
-def histories(ctx, progs, n):
+def histories(ctx, progs, n, pool=None):
     import python_minifier
     from python_minifier import RemoveAnnotationsOptions
     rng = ctx.rng
@@ -146,7 +270,7 @@ def histories(ctx, progs, n):
             ref_kw['preserve_locals'] = copy.deepcopy(kw['preserve_locals'])
             ref_kw['preserve_globals'] = copy.deepcopy(kw['preserve_globals'])
             ref_kw['remove_annotations'] = copy.deepcopy(kw['remove_annotations'])
-            expected.append(fresh(src, ref_kw))
+            expected.append(pool.minify(src, ref_kw) if pool is not None else fresh(src, ref_kw))
         pl0, pg0 = list(shared_pl), list(shared_pg)
         for idx, ((src, kw), exp) in enumerate(zip(calls, expected)):
             before = (copy.deepcopy(kw['preserve_locals']), copy.deepcopy(kw['preserve_globals']), repr(kw['remove_annotations']), src)
@@ -219,14 +343,24 @@ def _threads(ctx, progs, rounds, nthreads):
 def run(ctx):
     progs = programs(ctx, ctx.scale(40, 400))
     hash_seeds(ctx, progs, list(range(ctx.scale(8, 48))))
-    histories(ctx, progs, ctx.scale(40, 600))
+    pool = FreshPool()
+    try:
+        residue(ctx, pool, ctx.scale(70, 10000))
+        histories(ctx, progs + [p for pair in residue_programs() for p in pair][::ctx.scale(9, 1)], ctx.scale(40, 600), pool)
+    finally:
+        pool.close()
     threads(ctx, progs, ctx.scale(10, 120))
     ctx.sample({'stage': 'programs', 'source': progs[0][:300]})
 
 
 def search(ctx):
     progs = programs(ctx, 300)
-    histories(ctx, progs, 400)
+    pool = FreshPool()
+    try:
+        residue(ctx, pool, 10000)
+        histories(ctx, progs, 400, pool)
+    finally:
+        pool.close()
     if not ctx.violations:
         hash_seeds(ctx, progs, list(range(16)))
 
@@ -244,7 +378,20 @@ def replay(ctx, data):
                 pass
             if (pl, pg) != b:
                 return True
-        return False
+        # the last call of the history against the same call in a process that has minified nothing yet
+        kw = dict(inp.get('options') or {})
+        pool = FreshPool()
+        try:
+            expected = pool.minify(inp['sources'][-1], kw)
+        finally:
+            pool.close()
+        got = None
+        for src in inp['sources']:
+            try:
+                got = python_minifier.minify(src, **dict(kw))
+            except Exception as e:
+                got = 'EXC:' + e.__class__.__name__
+        return got != expected
     if data.get('oracle') == 'seeds':
         n0 = len(ctx.violations)
         hash_seeds(ctx, [inp['source']], inp['seeds'])
